@@ -193,7 +193,7 @@ func TestProp(t *testing.T) {
 		}
 		t.Repeat(map[string]func(*rapid.T){
 			"burst": burst,
-			"call": call, "call2": call, "call3": call, "call4": call, "call5": call, "call6": call,
+			"call":  call, "call2": call, "call3": call, "call4": call, "call5": call, "call6": call,
 			"probe": func(t *rapid.T) {
 				steps++
 				for i := range shared {
